@@ -11,7 +11,7 @@ import (
 
 func init() {
 	generators = append(generators, generator{name: "Unreg", run: genUnreg,
-		fallback: "namespace ErgoVerif.Gen.Unreg\ndef nameReleasedBeforeExitSignals : Bool := false\nend ErgoVerif.Gen.Unreg\n"})
+		fallback: "namespace ErgoVerif.Gen.Unreg\ndef nameReleasedBeforeExitSignals : Bool := false\ndef cleansRequesterSide : Bool := false\nend ErgoVerif.Gen.Unreg\n"})
 }
 
 func genUnreg() (string, error) {
@@ -24,9 +24,12 @@ func genUnreg() (string, error) {
 		return "", fmt.Errorf("node.unregisterProcess not found")
 	}
 	del, sig := 0, 0
+	cleans := false
 	ast.Inspect(fd.Body, func(n ast.Node) bool {
 		if c, ok := n.(*ast.CallExpr); ok {
 			switch selName(c.Fun) {
+			case "n.targetManager.CleanupConsumer":
+				cleans = true
 			case "n.names.Delete":
 				if del == 0 {
 					del = int(c.Pos())
@@ -42,5 +45,5 @@ func genUnreg() (string, error) {
 	if del == 0 || sig == 0 {
 		return "", fmt.Errorf("unregisterProcess: names.Delete / RouteTerminatePID not found")
 	}
-	return fmt.Sprintf("namespace ErgoVerif.Gen.Unreg\n/-- unregisterProcess deletes the registered name before RouteTerminatePID sends the exit signals -/\ndef nameReleasedBeforeExitSignals : Bool := %s\nend ErgoVerif.Gen.Unreg\n", leanBool(del < sig)), nil
+	return fmt.Sprintf("namespace ErgoVerif.Gen.Unreg\n/-- unregisterProcess deletes the registered name before RouteTerminatePID sends the exit signals -/\ndef nameReleasedBeforeExitSignals : Bool := %s\n/-- unregisterProcess drops the relations the terminated process holds as requester (targetManager.CleanupConsumer) -/\ndef cleansRequesterSide : Bool := %s\nend ErgoVerif.Gen.Unreg\n", leanBool(del < sig), leanBool(cleans)), nil
 }
